@@ -169,9 +169,26 @@ func numscriptSpaceInto(thorough bool, out *menus) spaceDesc {
 	if thorough {
 		pvNest = append(pvNest, []string{"$p", "remaining"}, []string{"remaining", "50%"})
 	}
-	SA1 := gen.SrcAllots(pv2, R) // allotment of leaves
+	// three-part allotments holding an EMPTY portion (0%) at some position: the rounding
+	// leftover goes to the earliest parts whatever their ratio, so an empty portion placed
+	// before a non-empty one receives a unit (seeded changes C24b / C26b treated a zero
+	// portion specially in the VM / in Allocate)
+	var pvZero [][]string
+	for _, pv := range gen.PortionVectors([]string{"0%", "1/2", "1/3", "remaining"}, 3) {
+		for _, x := range pv {
+			if x == "0%" {
+				pvZero = append(pvZero, pv)
+				break
+			}
+		}
+	}
+	Rz := R
+	if len(Rz) > 3 {
+		Rz = Rz[:3]
+	}
+	SA1 := concatSrc(gen.SrcAllots(pv2, R), gen.SrcAllots(pvZero, Rz)) // allotment of leaves
 	if thorough {
-		SA1 = concatSrc(gen.SrcAllots(pv2full, L), gen.SrcAllots(pv3, R))
+		SA1 = concatSrc(gen.SrcAllots(pv2full, L), gen.SrcAllots(pv3, R), gen.SrcAllots(pvZero, Rz))
 	}
 	// allotment with one nested (depth-1) item and one leaf
 	var SA2 []*gen.Src
@@ -200,9 +217,9 @@ func numscriptSpaceInto(thorough bool, out *menus) spaceDesc {
 		dmaxes = []gen.Mon{coin(0), coin(1), coin(5), gen.VarMon("mon")}
 	}
 	D1seq := gen.DstSeq1(dmaxes, KD0, KD0)
-	D1all := gen.DstAllots(pv2, KD0)
+	D1all := concatDst(gen.DstAllots(pv2, KD0), gen.DstAllots(pvZero, gen.KDs(gen.DstLeaves([]string{"@a", "@b", "@world"}), false)))
 	if thorough {
-		D1all = concatDst(gen.DstAllots(pv2full, KD0), gen.DstAllots(pv3, gen.KDs(gen.DstLeaves([]string{"@a", "@b", "@world"}), true)))
+		D1all = concatDst(gen.DstAllots(pv2full, KD0), gen.DstAllots(pv3, gen.KDs(gen.DstLeaves([]string{"@a", "@b", "@world"}), true)), gen.DstAllots(pvZero, gen.KDs(gen.DstLeaves([]string{"@a", "@b", "@world"}), false)))
 		D1seq = concatDst(D1seq, gen.DstSeq2([]gen.Mon{coin(1), coin(5)}, KD0, KD0, KD0))
 	}
 	// reduced menus for depth 2
